@@ -3,8 +3,8 @@
 package wsclient
 
 import (
-	"encoding/json"
 	"context"
+	"encoding/json"
 	"errors"
 	"fmt"
 	"sync"
@@ -313,6 +313,22 @@ func (s *Session) play(st *Step) error {
 		}
 	case "failwrite":
 		s.Sock.FailWriteAt(st.N)
+	case "boomcycle":
+		// transient resolver failure: only once every accepted subscription
+		// has received its initial envelope (so that the failure hits
+		// re-runs, never an initial run), and with no subscribe in between.
+		if !s.syncInitials() {
+			s.Log.Add(Event{Kind: EvStep, Note: "boomcycle skipped"})
+			break
+		}
+		s.World.Apply(st.Op, "driver")
+		if st.PauseUS > 0 {
+			time.Sleep(time.Duration(st.PauseUS) * time.Microsecond)
+		}
+		for _, op := range st.Landing {
+			s.World.Apply(op, "driver")
+		}
+		s.World.Apply(st.N, "driver")
 	case "pause":
 	default:
 		return fmt.Errorf("unknown step kind %q", st.Kind)
@@ -321,6 +337,24 @@ func (s *Session) play(st *Step) error {
 		time.Sleep(time.Duration(st.PauseUS) * time.Microsecond)
 	}
 	return err
+}
+
+// syncInitials waits (pacing, bounded) until all queued messages are
+// processed and every live subscription has at least one envelope.
+func (s *Session) syncInitials() bool {
+	n := s.Sock.Sent()
+	return shortWait(func() bool {
+		if n > 0 && !s.Sock.Processed(n-1) {
+			return false
+		}
+		a := Analyze(s.Log.Snapshot(), s.Sock.Meta(), s.Cfg.MaxSubs)
+		for _, inst := range a.Live() {
+			if len(inst.Envelopes) == 0 {
+				return false
+			}
+		}
+		return true
+	}, 2*time.Second)
 }
 
 // Closing reports whether a close was already queued.
